@@ -168,16 +168,34 @@ def coq_props(pid, timeout=600):
 FORBIDDEN = r'\b(Admitted|admit|Axiom|Axioms|Parameter|Parameters|Conjecture|Abort All|Unset Guard Checking|bypass_check|Admit Obligations|native_compute)\b|type-in-type|impredicative-set'
 
 
+def strip_coq_comments(text):
+    """remove (* ... *) comments (nested, multi-line), keeping line structure; string literals are respected"""
+    out = []; depth = 0; i = 0; n = len(text); in_str = False
+    while i < n:
+        ch = text[i]
+        if depth == 0 and ch == '"':
+            in_str = not in_str; out.append(ch); i += 1; continue
+        if not in_str and text.startswith('(*', i):
+            depth += 1; i += 2; continue
+        if not in_str and depth > 0 and text.startswith('*)', i):
+            depth -= 1; i += 2; continue
+        if depth > 0:
+            if ch == '\n': out.append('\n')
+            i += 1; continue
+        out.append(ch); i += 1
+    return ''.join(out)
+
+
 def forbidden_scan():
-    """grep the development for anything that would declare an axiom or switch off a kernel check."""
+    """grep the development (comments stripped) for anything that would declare an axiom or switch off a kernel check."""
     hits = []
     for root, _, files in os.walk(COQ):
         for fn in files:
             if fn.endswith('.v'):
                 p = os.path.join(root, fn)
-                for i, ln in enumerate(open(p, errors='replace'), 1):
-                    code = re.sub(r'\(\*.*?\*\)', '', ln)
-                    if re.search(FORBIDDEN, code):
+                code = strip_coq_comments(open(p, errors='replace').read())
+                for i, ln in enumerate(code.split('\n'), 1):
+                    if re.search(FORBIDDEN, ln):
                         hits.append('%s:%d: %s' % (os.path.relpath(p, COQ), i, ln.strip()))
     return hits
 
